@@ -175,13 +175,18 @@ def main(tier, seed, only=None):
                 chk.violation("%s;%s;ops=[%s]" % (v["clause"], v["criterion"], ",".join(ops)), v)
 
         cs = cfgs_a(tier)
+        # candidate selection among original / greedy / solver (stand-in solver, see mc/standin.py)
+        smt_cs = [("-ub-greedy",), ("-ub-greedy", "-size")] if tier == "quick" else \
+            [(), ("-ub-greedy",), ("-ub-greedy", "-size"), ("-ub-greedy", "-length"), ("-size",)]
         info = {}
         for name, units in sets:
             info[name] = len(units)
             tasks = [(cfg, ch) for cfg in cs for ch in pool.chunks(units, max(300, len(units) // 16 + 1))]
+            if name.startswith("tree(CORE"):
+                tasks += [(cfg, ch) for cfg in smt_cs for ch in pool.chunks(units, max(300, len(units) // 16 + 1))]
             pool.run_tasks(tasks, work_a, setup=driver.setup_ctx, unit_timeout=30, on_result=on_a)
         chk.cov["sets"] = info
-        chk.cov["configs"] = [list(c) for c in cs]
+        chk.cov["configs"] = [list(c) for c in cs] + [list(c) for c in smt_cs]
     if not only or only == "b":
         base = list(B.tree(B.CORE8 + [B.I("SSTORE"), B.I("SLOAD"), B.I("STOP")], 3, max_need=3))
         step = 8
